@@ -46,10 +46,19 @@ struct Message {
 #[post("/scxml/<sessionid>", data = "<params>")]
 fn rocket_receive_event(
     sessionid: u32,
-    params: rocket::form::Form<HashMap<String, String>>,
+    params: String,
     executor_state: &rocket::State<ExecutorStateArc>,
 ) -> (rocket::http::Status, String) {
-    let form_data = params.into_inner();
+    // The names of the fields are arbitrary: a Rocket form would cut them at '.' and '['.
+    let decode = |s: &str| rocket::http::RawStr::new(s).url_decode_lossy().to_string();
+    let form_data: HashMap<String, String> = params
+        .split('&')
+        .filter(|field| !field.is_empty())
+        .map(|field| {
+            let (name, value) = field.split_once('=').unwrap_or((field, ""));
+            (decode(name), decode(value))
+        })
+        .collect();
 
     match executor_state.arc.lock() {
         Ok(state) => match state.sessions.get(&sessionid) {
